@@ -118,6 +118,14 @@ def simp1(x):
         return mklen(x[1][1])
     if x[0] == "call" and x[1] == LEN and len(x[2]) == 1 and not x[3]:
         a = x[2][0]
+        # a row of a known 2-d array has shape[1] elements
+        parent = None
+        if a[0] == "bv" and a[1] in BV_ITER:
+            parent = BV_ITER[a[1]]
+        elif a[0] == "i" and a[2][0] not in ("sl", "t"):
+            parent = a[1]
+        if parent is not None and is2d(parent):
+            return ("i", ("a", parent, "shape"), ("c", 1))
         # len(x.copy()) -> len(x)
         if a[0] == "call" and a[1][0] == "a" and a[1][2] == "copy" and not a[2] and not a[3]:
             return mklen(a[1][1])
@@ -181,6 +189,40 @@ def subst(t, mapping):
     if t in mapping:
         return mapping[t]
     return tmap(f, t)
+
+
+def mkfstr(parts):
+    """format term: constants merged, empty ones dropped"""
+    out = []
+    for p in parts:
+        if p[0] == "c" and isinstance(p[1], str):
+            if p[1] == "":
+                continue
+            if out and out[-1][0] == "c" and isinstance(out[-1][1], str):
+                out[-1] = ("c", out[-1][1] + p[1])
+                continue
+        out.append(p)
+    return ("fstr", tuple(out))
+
+
+def fmt_parts(text, style, vals, src):
+    """"%s_%s" % (a, b)  /  "{}_{}".format(a, b)  ->  the format term of f"{a}_{b}" """
+    import re
+    pieces = re.split(r"(%[sd])" if style == "%" else r"(\{\})", text)
+    parts, k = [], 0
+    for piece in pieces:
+        if piece in ("%s", "%d", "{}"):
+            if k >= len(vals):
+                raise Unsupported("format string " + src)
+            parts.append(vals[k])
+            k += 1
+        else:
+            if "%" in piece or "{" in piece or "}" in piece:
+                raise Unsupported("format string " + src)
+            parts.append(("c", piece))
+    if k != len(vals):
+        raise Unsupported("format string " + src)
+    return mkfstr(parts)
 
 
 def mkcomp(bid, elt, it, conds):
@@ -266,6 +308,16 @@ class Closure:
 class Ev:
     def __init__(self, mod, cls=None, opaque=(), effect_free=("self.check_is_fitted",)):
         self.funcs = {n.name: n for n in mod.body if isinstance(n, ast.FunctionDef)}
+        # simple module-level constants (numbers, strings, tuples / lists of them) resolve by value
+        self.consts = {}
+        for n in mod.body:
+            if isinstance(n, ast.Assign) and len(n.targets) == 1 \
+                    and isinstance(n.targets[0], ast.Name) and not n.targets[0].id.startswith("__"):
+                try:
+                    v = ast.literal_eval(n.value)
+                except (ValueError, SyntaxError):
+                    continue
+                self.consts[n.targets[0].id] = self.const_term(v)
         self.methods = {}
         self.cls = cls
         if cls is not None:
@@ -446,6 +498,14 @@ class Ev:
             raise Unsupported("return inside a loop body")
         return self.merge(tree[1], self.tree_env(tree[2]), self.tree_env(tree[3]))
 
+    @staticmethod
+    def const_term(v):
+        if isinstance(v, tuple):
+            return ("t", tuple(Ev.const_term(x) for x in v))
+        if isinstance(v, list):
+            return ("l", tuple(Ev.const_term(x) for x in v))
+        return C(v)
+
     def get(self, env, name, node=None):
         if name in env:
             v = env[name]
@@ -453,6 +513,8 @@ class Ev:
                 raise Unsupported("use of a variable that is not defined on every path / after "
                                   "a loop: %s" % name)
             return v
+        if name in self.consts:
+            return self.consts[name]
         return ("s", name)
 
     def simple(self, st, env):
@@ -727,6 +789,12 @@ class Ev:
                 return C(-x[1])
             return ("u", type(e.op).__name__, x)
         if isinstance(e, ast.BinOp):
+            if isinstance(e.op, ast.Mod) and isinstance(e.left, ast.Constant) \
+                    and isinstance(e.left.value, str):
+                # "%s_%s" % (a, b): the same format term as the f-string f"{a}_{b}"
+                vals = self.expr(e.right, env)
+                vals = list(vals[1]) if vals[0] == "t" else [vals]
+                return fmt_parts(e.left.value, "%", vals, ast.unparse(e))
             return ("b", type(e.op).__name__, self.expr(e.left, env), self.expr(e.right, env))
         if isinstance(e, ast.BoolOp):
             tag = "and" if isinstance(e.op, ast.And) else "or"
@@ -744,6 +812,8 @@ class Ev:
                 return ("cmp", "Lt", b, a)
             if op == "GtE":
                 return ("cmp", "LtE", b, a)
+            if op in ("In", "NotIn") and b[0] == "l":
+                b = ("t", b[1])                  # membership in a literal: list or tuple alike
             return ("cmp", op, a, b)
         if isinstance(e, ast.IfExp):
             return mkif(self.expr(e.test, env), self.expr(e.body, env), self.expr(e.orelse, env))
@@ -760,7 +830,7 @@ class Ev:
                     parts.append(self.expr(v.value, env))
                 else:
                     raise Unsupported("f-string " + ast.unparse(e))
-            return ("fstr", tuple(parts))
+            return mkfstr(parts)
         if isinstance(e, ast.Call):
             return self.call(e, env)
         raise Unsupported("expression " + ast.unparse(e))
@@ -871,6 +941,11 @@ class Ev:
 
     def call(self, e, env):
         f = e.func
+        if isinstance(f, ast.Attribute) and f.attr == "format" and isinstance(f.value, ast.Constant) \
+                and isinstance(f.value.value, str) and not e.keywords \
+                and not any(isinstance(a, ast.Starred) for a in e.args):
+            return fmt_parts(f.value.value, "{", [self.expr(a, env) for a in e.args],
+                             ast.unparse(e))
         if any(isinstance(a, ast.Starred) for a in e.args) or any(k.arg is None for k in e.keywords):
             raise Unsupported("star arguments " + ast.unparse(e))
         if isinstance(f, ast.Name) and f.id == "map" and len(e.args) == 2 and not e.keywords \
@@ -893,6 +968,17 @@ class Ev:
             return self.inline(fn, bound, env, "self." + f.attr)
         if isinstance(f, ast.Name) and f.id == "len" and len(args) == 1 and args[0][0] in ("t", "l"):
             return C(len(args[0][1]))
+        if isinstance(f, ast.Name) and f.id not in env and not kws:
+            if f.id == "isinstance" and len(args) == 2 and args[1][0] == "t":
+                # isinstance(x, (A, B)) = isinstance(x, A) or isinstance(x, B)
+                return ("or", tuple(("call", ("s", "isinstance"), (args[0], c), ())
+                                    for c in args[1][1]))
+            if f.id == "list" and not args:
+                return ("l", ())
+            if f.id == "list" and len(args) == 1 and args[0][0] in ("comp", "l"):
+                return args[0]               # a comprehension term already denotes the list
+            if f.id == "tuple" and not args:
+                return ("t", ())
         ft = self.expr(f, env)
         if ft[0] == "a" and ft[1] == ("s", "np") and ft[2] in NP_SIGS and kws:
             # keyword vs positional passing of the leading numpy parameters
@@ -930,7 +1016,9 @@ class Ev:
                                        fdef.name), env)
         t = self.expr(node, env)
         if t[0] != "lam":
-            raise Unsupported("map over a function that cannot be inlined: " + ast.unparse(node))
+            # any other callable (len, float, np.mean, ..): map(f, xs) = [f(x) for x in xs]
+            i = fresh()
+            return ("lam", (i,), simp1(("call", t, (("bv", i),), ())))
         return t
 
 
